@@ -10,7 +10,6 @@ import (
 	"time"
 
 	"github.com/influxdata/influxdb/v2"
-	"github.com/influxdata/influxdb/v2/inmem"
 	"github.com/influxdata/influxdb/v2/kit/platform"
 	"github.com/influxdata/influxdb/v2/kv"
 	"github.com/influxdata/influxdb/v2/tenant"
@@ -23,8 +22,24 @@ import (
 
 type c30World struct {
 	t  testing.TB
-	st *inmem.KVStore
+	st kv.Store // what the sweep reads the raw indexes from (inmem, or the fault store over bolt)
 	ts *tenant.Service
+
+	// faulted histories only: the fault-injecting wrapper over a real bolt store
+	fs    *gkvFaultStore
+	close func()
+	// pre is called right before the service call of an operation (after the step has looked its
+	// target up): the faulted histories arm the store there
+	pre func(kind string, target platform.ID)
+	// what the last step did
+	lastKind   string
+	lastTarget platform.ID
+	lastErr    error
+	lastRan    bool
+	lastBefore []platform.ID // DeleteOrganization: the buckets the organization had before the call
+	lastNew    platform.ID   // CreateOrganization: the id the service assigned (also when it then failed)
+	// memberships a *failed* delete left behind and that were reported / counted already
+	tolerated map[[2]platform.ID]bool
 
 	// handles the workload picks its targets from (alive or not)
 	orgs    []platform.ID
@@ -37,6 +52,23 @@ type c30World struct {
 	sysNames    map[platform.ID]string        // system bucket → name
 	deletedOrgs map[platform.ID][]platform.ID // org whose delete returned nil → buckets it had at that moment
 	orgNames    map[platform.ID]string        // last name an organization was given (also after its deletion)
+}
+
+func (w *c30World) begin(kind string, target platform.ID) {
+	w.lastKind, w.lastTarget, w.lastRan, w.lastErr = kind, target, true, nil
+	if w.pre != nil {
+		w.pre(kind, target)
+	}
+}
+
+// c30NewBoltWorld: the same services over a real bolt store behind the fault-injecting wrapper.
+func c30NewBoltWorld(t testing.TB) *c30World {
+	st, done := gkvNewBoltStore(t)
+	fs := gkvNewFaultStore(st)
+	w := &c30World{t: t, st: fs, fs: fs, close: done, sysBuckets: map[platform.ID][]platform.ID{}, sysNames: map[platform.ID]string{}, deletedOrgs: map[platform.ID][]platform.ID{}, orgNames: map[platform.ID]string{}, tolerated: map[[2]platform.ID]bool{}}
+	w.ts = tenant.NewService(tenant.NewStore(fs))
+	w.ts.Apply(tenant.WithTaskService(gkvNoTasks{}))
+	return w
 }
 
 func c30NewWorld(t testing.TB) *c30World {
@@ -52,7 +84,7 @@ type c30Viol struct {
 	msg   string
 }
 
-func c30RawBucket(st *inmem.KVStore, name string) (out [][2]string, err error) {
+func c30RawBucket(st kv.Store, name string) (out [][2]string, err error) {
 	err = st.View(context.Background(), func(tx kv.Tx) error {
 		b, err := tx.Bucket([]byte(name))
 		if err != nil {
@@ -261,11 +293,15 @@ func c30Sweep(w *c30World, ev func(string)) (viol []c30Viol) {
 		}
 		switch m.ResourceType {
 		case influxdb.OrgsResourceType:
-			if _, ok := orgByID[m.ResourceID]; !ok {
+			if _, ok := orgByID[m.ResourceID]; !ok && w.tolerated[[2]platform.ID{m.ResourceID, m.UserID}] {
+				ev("reported_membership_of_missing_org_seen")
+			} else if !ok {
 				add("membership_survived_delete", f("kind", "urm", "resource", "org"), "mapping of user %s to organization %s: the organization does not exist", m.UserID, m.ResourceID)
 			}
 		case influxdb.BucketsResourceType:
-			if _, ok := bktByID[m.ResourceID]; !ok {
+			if _, ok := bktByID[m.ResourceID]; !ok && w.tolerated[[2]platform.ID{m.ResourceID, m.UserID}] {
+				ev("tolerated_membership_of_missing_bucket_seen")
+			} else if !ok {
 				add("membership_survived_delete", f("kind", "urm", "resource", "bucket"), "mapping of user %s to bucket %s: the bucket does not exist", m.UserID, m.ResourceID)
 			}
 		}
@@ -343,6 +379,7 @@ func c30Err(err error) string {
 // c30Step performs one random operation; returns its description and outcome-level violations.
 func c30Step(w *c30World, rg *vkit.Rand, ev func(string)) (desc string, viol []c30Viol) {
 	ctx := context.Background()
+	w.lastKind, w.lastTarget, w.lastErr, w.lastRan, w.lastBefore, w.lastNew = "", 0, nil, false, nil, 0
 	add := func(class string, feat map[string]string, format string, a ...any) {
 		viol = append(viol, c30Viol{class, feat, fmt.Sprintf(format, a...)})
 	}
@@ -378,7 +415,9 @@ func c30Step(w *c30World, rg *vkit.Rand, ev func(string)) (desc string, viol []c
 	switch k := rg.Intn(40); {
 	case k < 4:
 		o := &influxdb.Organization{Name: name(c30OrgNames)}
+		w.begin("CreateOrganization", 0)
 		err := w.ts.CreateOrganization(ctx, o)
+		w.lastErr, w.lastNew = err, o.ID
 		if err == nil {
 			noteOrg(o)
 		}
@@ -386,7 +425,9 @@ func c30Step(w *c30World, rg *vkit.Rand, ev func(string)) (desc string, viol []c
 		ev("op_org_create_" + c30OK(err))
 	case k < 8:
 		id, n := c30Pick(rg, w.orgs, orgAlive), name(c30OrgNames)
+		w.begin("RenameOrganization", id)
 		_, err := w.ts.UpdateOrganization(ctx, id, influxdb.OrganizationUpdate{Name: &n})
+		w.lastErr = err
 		if err == nil {
 			w.orgNames[id] = n
 		}
@@ -394,25 +435,31 @@ func c30Step(w *c30World, rg *vkit.Rand, ev func(string)) (desc string, viol []c
 		ev("op_org_rename_" + c30OK(err))
 	case k < 9:
 		id, d := c30Pick(rg, w.orgs, orgAlive), "desc"
+		w.begin("DescribeOrganization", id)
 		_, err := w.ts.UpdateOrganization(ctx, id, influxdb.OrganizationUpdate{Description: &d})
+		w.lastErr = err
 		desc = fmt.Sprintf("UpdateOrganization(%s, description) → %s", id, c30Err(err))
 		ev("op_org_describe_" + c30OK(err))
 	case k < 12:
 		id := c30Pick(rg, w.orgs, orgAlive)
 		before, _, _ := w.ts.FindBuckets(ctx, influxdb.BucketFilter{OrganizationID: &id})
+		var bs []platform.ID
+		for _, b := range before {
+			bs = append(bs, b.ID)
+		}
+		w.begin("DeleteOrganization", id)
 		err := w.ts.DeleteOrganization(ctx, id)
+		w.lastErr, w.lastBefore = err, bs
 		if err == nil {
-			var bs []platform.ID
-			for _, b := range before {
-				bs = append(bs, b.ID)
-			}
 			w.deletedOrgs[id] = bs
 		}
 		desc = fmt.Sprintf("DeleteOrganization(%s) → %s", id, c30Err(err))
 		ev("op_org_delete_" + c30OK(err))
 	case k < 17:
 		b := &influxdb.Bucket{OrgID: c30Pick(rg, w.orgs, orgAlive), Name: name(c30BucketNames), RetentionPeriod: time.Hour}
+		w.begin("CreateBucket", b.OrgID)
 		err := w.ts.CreateBucket(ctx, b)
+		w.lastErr = err
 		if err == nil {
 			w.buckets = append(w.buckets, b.ID)
 		}
@@ -420,12 +467,16 @@ func c30Step(w *c30World, rg *vkit.Rand, ev func(string)) (desc string, viol []c
 		ev("op_bucket_create_" + c30OK(err))
 	case k < 21:
 		id, n := c30Pick(rg, w.buckets, bktAlive), name(c30BucketNames)
+		w.begin("RenameBucket", id)
 		_, err := w.ts.UpdateBucket(ctx, id, influxdb.BucketUpdate{Name: &n})
+		w.lastErr = err
 		desc = fmt.Sprintf("UpdateBucket(%s, name=%q) → %s", id, n, c30Err(err))
 		ev("op_bucket_rename_" + c30OK(err))
 	case k < 24:
 		id := c30Pick(rg, w.buckets, bktAlive)
+		w.begin("DeleteBucket", id)
 		err := w.ts.DeleteBucket(ctx, id)
+		w.lastErr = err
 		desc = fmt.Sprintf("DeleteBucket(%s) → %s", id, c30Err(err))
 		ev("op_bucket_delete_" + c30OK(err))
 	case k < 27: // system buckets: rename / delete must be refused; other updates are allowed
@@ -443,14 +494,18 @@ func c30Step(w *c30World, rg *vkit.Rand, ev func(string)) (desc string, viol []c
 		switch rg.Intn(3) {
 		case 0:
 			n := vkit.Pick(rg, []string{"b1", "_renamed", "_monitoring", "_tasks"})
+			w.begin("RenameSystemBucket", id)
 			_, err := w.ts.UpdateBucket(ctx, id, influxdb.BucketUpdate{Name: &n})
+			w.lastErr = err
 			if err == nil && ferr == nil && n != w.sysNames[id] {
 				add("system_bucket_renamed", map[string]string{"kind": "bucket", "via": "return_value"}, "UpdateBucket(system bucket %s %q, name=%q) returned nil", id, w.sysNames[id], n)
 			}
 			desc = fmt.Sprintf("UpdateBucket(system %s %q, name=%q) → %s", id, w.sysNames[id], n, c30Err(err))
 			ev("op_sysbucket_rename_" + c30OK(err))
 		case 1:
+			w.begin("DeleteSystemBucket", id)
 			err := w.ts.DeleteBucket(ctx, id)
+			w.lastErr = err
 			if err == nil && ferr == nil {
 				add("system_bucket_deleted", map[string]string{"kind": "bucket", "via": "return_value"}, "DeleteBucket(system bucket %s %q) returned nil", id, w.sysNames[id])
 			}
@@ -458,13 +513,17 @@ func c30Step(w *c30World, rg *vkit.Rand, ev func(string)) (desc string, viol []c
 			ev("op_sysbucket_delete_" + c30OK(err))
 		default:
 			d := "d"
+			w.begin("DescribeSystemBucket", id)
 			_, err := w.ts.UpdateBucket(ctx, id, influxdb.BucketUpdate{Description: &d})
+			w.lastErr = err
 			desc = fmt.Sprintf("UpdateBucket(system %s, description) → %s", id, c30Err(err))
 			ev("op_sysbucket_describe_" + c30OK(err))
 		}
 	case k < 29:
 		u := &influxdb.User{Name: name(c30UserNames), Status: influxdb.Active}
+		w.begin("CreateUser", 0)
 		err := w.ts.CreateUser(ctx, u)
+		w.lastErr = err
 		if err == nil {
 			w.users = append(w.users, u.ID)
 		}
@@ -472,12 +531,16 @@ func c30Step(w *c30World, rg *vkit.Rand, ev func(string)) (desc string, viol []c
 		ev("op_user_create_" + c30OK(err))
 	case k < 31:
 		id, n := c30Pick(rg, w.users, userAlive), name(c30UserNames)
+		w.begin("RenameUser", id)
 		_, err := w.ts.UpdateUser(ctx, id, influxdb.UserUpdate{Name: &n})
+		w.lastErr = err
 		desc = fmt.Sprintf("UpdateUser(%s, name=%q) → %s", id, n, c30Err(err))
 		ev("op_user_rename_" + c30OK(err))
 	case k < 33:
 		id := c30Pick(rg, w.users, userAlive)
+		w.begin("DeleteUser", id)
 		err := w.ts.DeleteUser(ctx, id)
+		w.lastErr = err
 		desc = fmt.Sprintf("DeleteUser(%s) → %s", id, c30Err(err))
 		ev("op_user_delete_" + c30OK(err))
 	case k < 38: // membership on a resource that exists right now
@@ -497,7 +560,9 @@ func c30Step(w *c30World, rg *vkit.Rand, ev func(string)) (desc string, viol []c
 			}
 		}
 		m := &influxdb.UserResourceMapping{UserID: c30Pick(rg, w.users, userAlive), UserType: vkit.Pick(rg, []influxdb.UserType{influxdb.Owner, influxdb.Member}), MappingType: influxdb.UserMappingType, ResourceType: rt, ResourceID: res}
+		w.begin("CreateUserResourceMapping", res)
 		err := w.ts.CreateUserResourceMapping(ctx, m)
+		w.lastErr = err
 		if err == nil {
 			w.urms = append(w.urms, [2]platform.ID{m.ResourceID, m.UserID})
 		}
@@ -509,7 +574,9 @@ func c30Step(w *c30World, rg *vkit.Rand, ev func(string)) (desc string, viol []c
 			break
 		}
 		p := vkit.Pick(rg, w.urms)
+		w.begin("DeleteUserResourceMapping", p[0])
 		err := w.ts.DeleteUserResourceMapping(ctx, p[0], p[1])
+		w.lastErr = err
 		desc = fmt.Sprintf("DeleteUserResourceMapping(%s, %s) → %s", p[0], p[1], c30Err(err))
 		ev("op_urm_delete_" + c30OK(err))
 	}
@@ -557,8 +624,9 @@ func c30Report(r *vkit.Run, w *c30World, hist []string, vs []c30Viol, mode strin
 func TestC30(t *testing.T) {
 	r := vkit.Start(t, "C30", "exploration")
 	defer r.Finish()
-	r.Rule("histories of 8–30 random organization/bucket/user/membership operations (create, rename, delete, describe; names from pools of 6–10 with collisions, case and whitespace variants, reserved and empty names; targets incl. deleted and never-existing ids; rename/delete attempts on system buckets) against the real tenant.Service on the in-memory KV store; after every operation a sweep through the service API and the raw name indexes: names unique, every name lookup returns the record, every index entry points to a record of that name, no bucket or membership of a deleted organization/bucket/user, system buckets of living organizations present under their names, by-user membership index = scan; non-trivial = ≥5 operations succeeded incl. a rename or delete; distinct = the history. concurrent part: G goroutines create / rename to the same name at once, then the same sweep, under the race detector")
+	r.Rule("histories of 8–30 random organization/bucket/user/membership operations (create, rename, delete, describe; names from pools of 6–10 with collisions, case and whitespace variants, reserved and empty names; targets incl. deleted and never-existing ids; rename/delete attempts on system buckets) against the real tenant.Service on the in-memory KV store; after every operation a sweep through the service API and the raw name indexes: names unique, every name lookup returns the record, every index entry points to a record of that name, no bucket or membership of a deleted organization/bucket/user, system buckets of living organizations present under their names, by-user membership index = scan; non-trivial = ≥5 operations succeeded incl. a rename or delete; distinct = the history. concurrent part: G goroutines create / rename to the same name at once, then the same sweep, under the race detector. faulted histories: the same operation mix (after a fixture of 1–2 organizations with user buckets, users and memberships) on a real bolt store behind a fault-injecting kv.Store wrapper; about every second operation runs with one fault armed — the N-th Put/Delete of the operation (N up to one past its last mutation, optionally only mutations on one tenant KV bucket) or the commit of its k-th transaction returns an I/O error, once; after an operation with a fault inside: returned nil → judged like any successful operation; returned an error → handles re-synchronised from what the services list, then the same sweep (unique names, index entries agree with records, no bucket or membership of an organization that does not exist); a failed DeleteOrganization is repeated without a fault and must succeed or say not-found, after which organization, buckets and memberships must be gone; non-trivial = ≥1 fault fired and ≥3 operations succeeded")
 	ev := func(n string) { r.Event(n, 1) }
+	c30FaultedHistories(r, t, ev)
 	n := r.N(1200, 12000)
 	for h := 0; h < n; h++ {
 		rg := r.Rand(h)
